@@ -161,7 +161,7 @@ def docKeys : List (Name × Name × Bool) := [
     (n!"Optional Bias tensor must be of shape: #D", n!"constraint_bias_shape", false),
     (n!"Optional Bias tensor must be of type: ", n!"constraint_bias_type", false),
     (n!"Optional Bias tensor values must fit within #-bits", n!"constraint_bias_40bit", false),
-    (n!"IFM Tensor batch size must be #", n!"constraint_batch_size", false),
+    (n!"IFM and OFM Tensor batch size must be #", n!"constraint_batch_size", false),
     (n!"For depth multipliers > #, IFM channels must be # and OFM channels must be equal to the depth multiplier", n!"constraint_depth_multiplier", false),
     (n!"Strides must fulfil the following criteria:", n!"constraint_stride_width_no_upper_limit", false),
     (n!"Stride width must be greater than or equal to #.", n!"constraint_stride_range_no_padding", false),
